@@ -26,6 +26,10 @@ PROPS = {
         technique="property-based testing: rapid state machine over the real app (signed txs), conservation invariant + per-transaction balance-delta law",
         level_text="Generated transaction histories (all marketplace message types, several tenants/providers, zero to exhaustion-sized block gaps) are executed on the real application; after every transaction and block advance the escrow module balance is compared with a full scan of escrow records and every actor's bank delta with its own deposits/refunds/payouts.",
         level_note="Trusted: cosmos-sdk bank/auth modules, rapid; explores sampled histories only."),
+    "C02": chain("C02_App", 60, 1200, floor=0.3,
+        technique="property-based testing: exhaustive small-domain enumeration of the escrow keeper (all deposits/rates/gaps/trigger schedules) + rapid state machine over the real app; trigger-independent accrual invariants recomputed from recorded heights",
+        level_text="Keeper level: all small deposits, 1-3 payments with small rates and creation offsets, and all subsets of settlement trigger points/kinds are enumerated exhaustively against closed-form accrual invariants. App level: histories with several concurrent leases per deployment check exact accrual (never-overdrawn accounts), the never-more-than-rate-x-blocks bound, transferred = credited, balance+transferred = deposits, and the overdraft distribution validity predicate.",
+        level_note="Trusted: cosmos-sdk Int arithmetic; the keeper-level ledger bank is a harness stub; enumeration bounds are stated in the evidence."),
     "C03": chain("C03", 60, 1500, floor=0.3,
         technique="property-based testing: rapid state machine over the real app, escrow record invariants + chain's own ValidateGenesis as oracle + close-takes-effect postconditions",
         level_text="Histories biased towards closes with zero elapsed blocks / zero accrued balance; after every step a full escrow scan checks open/closed/overdrawn agreement, zero balances of closed records, immutability of closed records, escrow.ValidateGenesis(ExportGenesis) and the postcondition of every successful close message.",
@@ -34,6 +38,26 @@ PROPS = {
         technique="property-based testing: rapid state machine over the real app, join of market/deployment stores with escrow store after every transaction",
         level_text="After every transaction of generated histories the market/deployment records are joined with escrow records through the id mapping (lease<->payment, bid<->deposit account, deployment<->account) in both directions, plus per-record refund checks when a bid or deployment ends.",
         level_note="Trusted: as C01."),
+    "C04": chain("C04", 60, 1500, floor=0.3,
+        technique="property-based testing: rapid state machine over the real app, full scan of deployment and market stores after every transaction against the listed relations",
+        level_text="After every transaction and block advance of generated multi-tenant histories (including overdrafts, pause/start/close of groups before and after overdraft) a full scan checks each relation of the statement between deployments, groups, orders, bids and leases, and the lease/bid/order price relation.",
+        level_note="Trusted: as C01."),
+    "C06": chain("C06", 60, 1200, floor=0.3,
+        technique="property-based testing: rapid state machine over the real app, signer table from the statement vs GetSigners, wrongly-signed twins, raw key/value diff of all stores decoded by key layout and by embedded ids",
+        level_text="Every message type is executed in reachable states where one owner holds several deployments with prefix-colliding sequence numbers; each transaction's raw store diff must decode (by key layout and, cross-checked, by the ids inside the value) to records of the object the message names; twins signed by another account must be rejected without effect; only the signer's balance may fall.",
+        level_note="Trusted: as C01; the key-layout decoder is white-box (anchors key.go files)."),
+    "C07": chain("C07", 40, 800, floor=0.2,
+        technique="property-based testing: metamorphic repetition (handler run 8x on sibling cache branches, byte-compare writes/results/events) + differential twin app instance",
+        level_text="Before each transaction its routed module handler is executed 8 times on sibling branches of the same state and the full store dump, result and events are compared bytewise; a second application instance in the same process receives the identical block stream and must produce identical DeliverTx responses and app hashes.",
+        level_note="Trusted: Go map iteration randomisation as the source of divergence (detection probability per two-key map order >= 1-2^-7 per transaction); single process, single architecture."),
+    "C08": chain("C08", 60, 1500, floor=0.3,
+        technique="property-based testing: rapid state machine over the real app with near-miss construction; independent set-based admission predicate evaluated on the pre-state",
+        level_text="Bids are generated against orders with generated attribute requirements and all-of/any-of auditor lists, with providers and attestations that are exactly sufficient or broken in one place; every accepted bid / provider update must satisfy the independent predicate on the pre-state (only-if direction; converse recorded as statistic).",
+        level_note="Trusted: as C01."),
+    "C16": chain("C16", 60, 1500, floor=0.2,
+        technique="property-based testing: rapid state machine over the real app; expected typed-event multiset derived from the record diff vs events parsed as the provider parses them; codec round trip in package events",
+        level_text="For every successful transaction the multiset of expected typed events is derived from the before/after record diff (including hook cascades) and compared with the transaction's akash.v1 events parsed through the module ParseEvent chain; spurious created/closed/paused/started events are rejected; all event types round-trip through the provider's real processEvent for generated ids and prices.",
+        level_note="Trusted: as C01; events of failed transactions are ignored (they are never published)."),
     "C15": {
         "level": "exploration",
         "technique": "property-based testing: rapid state machine vs per-subscriber FIFO model + generated concurrent runs with schedule-independent order oracle",
